@@ -381,6 +381,7 @@ type genCfg struct {
 	memOnly       bool
 	twoDbs        bool
 	forceFastKeys uint
+	pipelines     bool
 }
 
 func pickU16(r *ssched.Rand, xs []uint16) uint16 { return xs[r.Intn(len(xs))] }
@@ -447,16 +448,27 @@ func genDataSpec(r *ssched.Rand, uniq *int, depth int) *DataSpec {
 	}
 }
 
+// genMs: millisecond durations below and above the 3000 ms hand-over to the second wheel.
+func genMs(r *ssched.Rand) uint16 {
+	switch r.Intn(10) {
+	case 0, 1, 2, 3, 4:
+		return uint16(1 + r.Intn(2999))
+	case 5, 6, 7:
+		return uint16(3000 + r.Intn(3500))
+	case 8:
+		return uint16(2990 + r.Intn(20))
+	}
+	return uint16(6000 + r.Intn(14000))
+}
+
 func genCore(prop string, seed uint64, tier string, g genCfg) *Scenario {
 	r := ssched.Sub(seed, "gen")
+	pipelineOK = g.pipelines
 	body := &CoreBody{Serial: g.serial, NKeys: between(r, g.nKeys), NLids: between(r, g.nLids), Profile: g.profile, Dbs: []int{0}}
 	if g.twoDbs && r.Intn(3) == 0 {
 		body.Dbs = []int{0, 3}
 	}
 	nc := between(r, g.nClients)
-	if g.serial {
-		nc = 1 + r.Intn(nc)
-	}
 	uniq := 0
 	keyCount := make([]uint16, body.NKeys)
 	for i := range keyCount {
@@ -497,14 +509,14 @@ func genCore(prop string, seed uint64, tier string, g genCfg) *Scenario {
 				o.Expried = pickU16(r, g.expireds)
 				if r.Intn(1000) < g.pMs {
 					o.TFlag |= tfMs
-					o.Timeout = uint16(1 + r.Intn(2500))
+					o.Timeout = genMs(r)
 				} else if r.Intn(1000) < g.pMinute && o.Timeout > 0 {
 					o.TFlag |= tfMinute
 					o.Timeout = uint16(1 + r.Intn(2))
 				}
 				if r.Intn(1000) < g.pMs {
 					o.EFlag |= efMs
-					o.Expried = uint16(1 + r.Intn(2900))
+					o.Expried = genMs(r)
 				} else if r.Intn(1000) < g.pMinute {
 					o.EFlag |= efMinute
 					o.Expried = uint16(1 + r.Intn(2))
@@ -618,7 +630,7 @@ func (cr *coreRun) clientTask(ci int, cs ClientSpec) {
 			r.lost = true
 			return
 		}
-		if op.Wait || cr.body.Serial {
+		if op.Wait && !cr.body.Serial {
 			<-r.done
 		}
 	}
@@ -744,7 +756,31 @@ func (cr *coreRun) startDrain() {
 			}
 			sleep(time.Second)
 		}
-		sleep(6 * time.Second)
+		// past every re-check horizon: a finished request's record may stay on a timeout/expiry
+		// wheel or long-wait table until its original deadline (entries are discarded lazily)
+		horizon := w.now().Add(6 * time.Second)
+		for _, r := range cr.h.order {
+			if r.Op.Cmd != protocol.COMMAND_LOCK {
+				continue
+			}
+			t := r.InvT.Add(timeoutDur(&r.Op) + 12*time.Second)
+			if r.Op.EFlag&efUnlim == 0 {
+				t = t.Add(expiryDur(r.Op.Expried, r.Op.EFlag))
+			}
+			for _, rep := range r.Replies {
+				if rep.Result == protocol.RESULT_SUCCED && r.Op.EFlag&efUnlim == 0 {
+					if t2 := rep.T.Add(expiryDur(r.Op.Expried, r.Op.EFlag) + 12*time.Second); t2.After(t) {
+						t = t2
+					}
+				}
+			}
+			if t.After(horizon) {
+				horizon = t
+			}
+		}
+		if d := horizon.Sub(w.now()); d > 0 {
+			sleep(d)
+		}
 		w.logf("DRAIN done t=%s", w.simT())
 		cr.drained = true
 	})
@@ -775,4 +811,58 @@ func (cr *coreRun) summarise() {
 	w.res.Probes["timeouts"] = timeouts
 	w.res.Probes["expiries"] = expired
 	w.res.Nontrivial = granted >= 2 && (waited > 0 || timeouts > 0 || expired > 0)
+}
+
+// genHolderWaves: structured workload for the holder bookkeeping (C02, C17).
+func genHolderWaves(prop string, seed uint64, tier string) *Scenario {
+	r := ssched.Sub(seed, "gen")
+	n := 150 + r.Intn(270)
+	if r.Intn(4) == 0 {
+		n = 20 + r.Intn(120)
+	}
+	body := &CoreBody{NKeys: 1, NLids: n, Profile: "holder-waves", Dbs: []int{0}, Serial: true}
+	var ops []OpSpec
+	cnt := uint16(0xffff)
+	if r.Intn(3) == 0 {
+		cnt = uint16(n + 50)
+	}
+	for i := 0; i < n; i++ {
+		ops = append(ops, OpSpec{Cmd: 1, Key: 0, Lid: i, Count: cnt, Rcount: uint8(r.Intn(3)), Expried: uint16(40 + r.Intn(30)), DelayMs: r.Intn(3)})
+		if r.Intn(10) == 0 {
+			// a re-entrant level now and then
+			ops = append(ops, OpSpec{Cmd: 1, Key: 0, Lid: i, Count: cnt, Rcount: 3, Expried: uint16(40 + r.Intn(30))})
+		}
+	}
+	order := make([]int, n)
+	for i := range order {
+		order[i] = i
+	}
+	switch r.Intn(3) {
+	case 1:
+		for i, j := 0, n-1; i < j; i, j = i+1, j-1 {
+			order[i], order[j] = order[j], order[i]
+		}
+	case 2:
+		for i := n - 1; i > 0; i-- {
+			j := r.Intn(i + 1)
+			order[i], order[j] = order[j], order[i]
+		}
+	}
+	for _, l := range order {
+		ops = append(ops, OpSpec{Cmd: 2, Key: 0, Lid: l, Rcount: 0, DelayMs: r.Intn(3)})
+		switch r.Intn(6) {
+		case 0, 1:
+			ops = append(ops, OpSpec{Cmd: 2, Key: 0, Lid: l, Rcount: 0}) // must be refused
+		case 2:
+			ops = append(ops, OpSpec{Cmd: 1, Key: 0, Lid: l, Count: cnt, Rcount: 1, Expried: 30})
+			ops = append(ops, OpSpec{Cmd: 2, Key: 0, Lid: l, Rcount: 0})
+			ops = append(ops, OpSpec{Cmd: 2, Key: 0, Lid: l, Rcount: 0})
+		case 3:
+			ops = append(ops, OpSpec{Cmd: 2, Key: 0, Lid: r.Intn(n), Flag: protocol.UNLOCK_FLAG_UNLOCK_FIRST_LOCK_WHEN_UNLOCKED, Rcount: 0})
+		}
+	}
+	body.Clients = []ClientSpec{{Kind: "mem", StartMs: 50, Ops: ops}}
+	raw, _ := json.Marshal(body)
+	sc := &Scenario{Knobs: genKnobs(r), Sched: genSched(r, seed), Body: raw, MaxSimS: 1200}
+	return sc
 }
